@@ -177,6 +177,15 @@ def Svc.markUnhealthy (s : Svc) (key : ShortKey) : Svc :=
       -- already unhealthy (e.g. registered that way): still queued for removal
       { s with unhealthyTO := s.unhealthyTO ++ [(i.lastModified, key)] }
 
+/-- `Service::update_perpetual_instance_healthy_valid`: the host of a persistent instance answered the probe -/
+def Svc.probeValid (s : Svc) (key : ShortKey) : Svc :=
+  match AL.get? s.insts key with
+  | none => s
+  | some i =>
+    if !i.healthy && !i.ephemeral then
+      { s with healthySize := s.healthySize + 1, insts := AL.set s.insts key { i with healthy := true } }
+    else s
+
 /-- re-validation in `time_check`: an instance that is not subject to the heartbeat clock, or that was
 heard of after `limit`, is skipped -/
 def Svc.skipTimeout (s : Svc) (key : ShortKey) (limit : Int) : Bool :=
@@ -291,6 +300,13 @@ def Naming.raftRemove (n : Naming) (k : SKey) (short : ShortKey) (now : Int) : N
     match AL.get? svc.insts short with
     | some i => if i.ephemeral then n else (n.removeInstance k short none now).1
     | none => (n.removeInstance k short none now).1
+
+/-- `NamingActor::update_perpetual_health` for one service: the result of the TCP probe of a host (the health check
+of persistent instances); a failed probe marks whatever instance is registered at the host unhealthy -/
+def Naming.probe (n : Naming) (k : SKey) (short : ShortKey) (ok : Bool) : Naming :=
+  match AL.get? n.services k with
+  | none => n
+  | some s => { n with services := AL.set n.services k (if ok then s.probeValid short else s.markUnhealthy short) }
 
 /-- is the recorded instance a persistent one? (a closing connection leaves those alone) -/
 def Naming.isPersistent (n : Naming) (ik : IKey) : Bool :=
